@@ -1,15 +1,16 @@
 """C19 — estimateMemory bounds the memory requested while loading and convolving.
 
-Proof : PsV/Props/C19.lean (C19_peak_le_estimate, C19_peak_read_le_estimate, C19_live_after_convolve, decided witnesses),
+Proof : PsV/Props/C19.lean (C19_peak_le_estimate, C19_peak_read_le_estimate, C19_live_after_convolve,
+        C19_loadable_consistent, C19_convolvable_iff, C19_peak_le_estimate_loadable, decided witnesses),
         stated about PsV/Generated/C19.lean, which tools/gen_c19.py regenerates from the working tree on every run
-        (size terms of estimateMemory, allocator call sites of read_fits_core and convolve in source order, constants).
+        (size terms of estimateMemory, allocator call sites of read_fits_core and convolve in source order with the
+        condition of the second block of a quoted aux value, the reader's shape validation, constants).
 Tie   : harness/c19_harness.cpp loads generated files into splinetable<CountingAlloc> and convolves them; per case the
         real estimateMemory value, the measured peak / live bytes and the exact sequence of allocator requests (sizes)
-        must EQUAL what the Lean definitions compute from the file description (exact line equality).
+        must EQUAL what the Lean definitions compute from the file description (exact line equality).  Files whose
+        shape the generated validation predicate refuses must be refused by the library, and vice versa.
 Oracle: measured peak <= real estimateMemory value (independent of the model)."""
 import json, os, subprocess, sys
-
-KF_INCONSISTENT = "inconsistent-file: coefficient image axis of the declared dimension differs from nknots-order-1"
 
 
 def parse_case(c):
@@ -20,7 +21,7 @@ def parse_case(c):
     rest = v[7:]
     dims = [{"order": rest[3 * i], "nknots": rest[3 * i + 1], "naxes": rest[3 * i + 2]} for i in range(ndim)]
     rest = rest[3 * ndim:]
-    aux = [(rest[2 * i], rest[2 * i + 1]) for i in range(naux)]
+    aux = [(rest[3 * i], rest[3 * i + 1], rest[3 * i + 2]) for i in range(naux)]
     return {"objsize": objsize, "ndim": ndim, "n": n, "cdim": cdim, "doconv": doconv, "naux_last_knots_hdu": nauxk, "naux": naux, "dims": dims, "aux": aux}
 
 
@@ -46,14 +47,17 @@ def run(ctx):
         gen = json.load(open(gjson))
         ctx.coverage["generated"] = {"constants": gen["constants"], "naux_counted_in": gen["estimate"]["naux_hdu"],
                                      "size_terms": gen["estimate"]["loop_terms_src"] + gen["estimate"]["fixed_src"] + [gen["estimate"]["rounding_src"]],
-                                     "read_sites": gen["read_sites"], "convolve_sites": gen["convolve_sites"]}
+                                     "read_sites": gen["read_sites"], "convolve_sites": gen["convolve_sites"],
+                                     "reader_rejects": gen["reader_rejects"], "convolve_rejects": gen["convolve_rejects"],
+                                     "read_info": gen["read_info"], "convolve_info": gen["convolve_info"]}
     # 2. proofs about the generated definitions + driver
     ctx.audit()
     # 3. harness from the working tree
     modes = ["shipped"] if ctx.tier == "quick" else ["shipped", "san"]
-    n_g, n_i = (500, 30) if ctx.tier == "quick" else (8000, 200)
+    n_g, n_i = (500, 150) if ctx.tier == "quick" else (8000, 1500)
     seen, evals, dist = set(), 0, {}
     worst = None
+    refused = {"files": 0, "transient_above_estimate": 0, "largest_transient_minus_estimate": None}
     for mode in modes:
         exe = ctx.compile("c19_" + mode, ["c19_harness.cpp"], mode=mode)
         if not exe:
@@ -68,7 +72,7 @@ def run(ctx):
                               "C19 harness %s (rc=%d) while loading/convolving generated tables: %s" % ("timed out" if rc == 124 else "aborted", rc, err[-500:]))
                 continue
             stats = json.load(open(prefix + ".stats.json")); dist[mode + ":" + profile] = stats
-            for k in ("reserved_rule_disagreements", "aux_cross_check_failures"):
+            for k in ("reserved_rule_disagreements", "aux_cross_check_failures", "stored_cross_check_failures"):
                 if stats.get(k, 0):
                     ctx.tie_ok = False; ctx.broken.append({"kind": "harness self-check failed: " + k, "count": stats[k]})
             model = prefix + ".model"
@@ -81,28 +85,48 @@ def run(ctx):
             if not (len(cases) == len(impl) == len(mod)):
                 ctx.tie_ok = False; ctx.broken.append({"kind": "line count mismatch", "cases": len(cases), "impl": len(impl), "model": len(mod)}); continue
             for ln, (c, i, m) in enumerate(zip(cases, impl, mod)):
+                model_refuses = m is not None and m.startswith("rejected")
+                if model_refuses and not i.startswith("rejected"):
+                    # the library loaded a file the generated validation predicate refuses: tie broken; the oracle below still applies
+                    ctx.tie_ok = False
+                    if len(ctx.broken) < 6:
+                        ctx.broken.append({"kind": "reader validation: library loaded a file which the generated predicate readerRejects refuses", "case": c[:300], "impl": i[:120]})
+                    m = None
                 if i.startswith("rejected"):
-                    if profile == "G":
+                    # ---- the reader's validation: the library refuses the file exactly when the generated predicate does
+                    evals += 1
+                    if not model_refuses or profile == "G":
                         ctx.tie_ok = False
-                        if len(ctx.broken) < 6: ctx.broken.append({"kind": "library rejected a file written by write_fits", "impl": i[:200]})
+                        if len(ctx.broken) < 6:
+                            ctx.broken.append({"kind": "library rejected a file written by write_fits" if profile == "G" else
+                                               "reader validation: library refused a file which the generated predicate readerRejects accepts", "case": c[:300], "impl": i[:200], "model": (m or "")[:60]})
+                        continue
+                    w = i.split()
+                    est_r, peak_r, live_r = int(w[2]), int(w[4]), int(w[6])
+                    pc = parse_case(c)
+                    refused["files"] += 1
+                    seen.add(c)
+                    if est_r and pc["objsize"] + peak_r > est_r:
+                        refused["transient_above_estimate"] += 1
+                        d = pc["objsize"] + peak_r - est_r
+                        if refused["largest_transient_minus_estimate"] is None or d > refused["largest_transient_minus_estimate"]["bytes"]:
+                            refused["largest_transient_minus_estimate"] = {"bytes": d, "estimate": est_r, "peak_before_refusal": peak_r, "dims": pc["dims"], "message": " ".join(w[7:])[:160]}
                     continue
                 pc, pi = parse_case(c), parse_impl(i)
                 if pc is None or pi is None:
                     ctx.tie_ok = False; ctx.broken.append({"kind": "unparsable line", "case": c[:200], "impl": i[:200]}); continue
                 evals += 1
-                consistent = pc["dims"][pc["cdim"]]["naxes"] + pc["dims"][pc["cdim"]]["order"] + 1 == pc["dims"][pc["cdim"]]["nknots"]
-                card_ok = all(k + v <= 82 for k, v in pc["aux"])
+                card_ok = all(k + v <= 82 and sl <= v for k, v, sl in pc["aux"])
                 # ---- property oracle (independent of the model): measured peak within the real estimate
                 if pi["peak"] > pi["est"]:
-                    sig = KF_INCONSISTENT if not consistent else "peak-exceeds-estimate"
-                    ctx.report(sig, {"case_line": c, "file": pc, "impl": pi, "mode": mode, "line": ln, "replay_cmd": replay_cmd,
-                                     "how": "the harness regenerates this file from VERIF_SEED (table built with psv::build_table, aux keys via write_key, written with write_fits), "
+                    ctx.report("peak-exceeds-estimate", {"case_line": c, "file": pc, "impl": pi, "mode": mode, "line": ln, "replay_cmd": replay_cmd,
+                                     "how": "the harness regenerates this file from VERIF_SEED (table built with psv::build_table, aux keys via write_key, written with write_fits, unquoted cards added with cfitsio), "
                                             "loads it into splinetable<CountingAlloc>, convolves as declared and compares the byte ledger with estimateMemory"},
                                "C19: %d bytes requested simultaneously from the allocator but estimateMemory(file, n=%d, dim=%d) = %d (ndim=%d, naux=%d, convolution %s)"
                                % (pi["peak"], pc["n"], pc["cdim"], pi["est"], pc["ndim"], pc["naux"], "performed" if pc["doconv"] else "not performed"))
                 if not card_ok:
                     ctx.tie_ok = False
-                    if len(ctx.broken) < 6: ctx.broken.append({"kind": "assumption violated: strlen(key)+strlen(value) > 80 for an auxiliary card", "case": c[:300]})
+                    if len(ctx.broken) < 6: ctx.broken.append({"kind": "assumption violated: strlen(key)+strlen(value) > 80 for an auxiliary card, or stored string longer than the raw card value", "case": c[:300]})
                 # ---- correspondence: estimate, peak, live and the full request sequence are equal
                 if m is not None and i != m:
                     ctx.tie_ok = False
@@ -121,16 +145,21 @@ def run(ctx):
                                                     "model_line_equal": i == m})
     ctx.coverage["evaluations"] = evals
     ctx.coverage["distinct_nontrivial"] = len(seen)
-    ctx.coverage["rule"] = ("files generated from VERIF_SEED by harness/c19_harness.cpp: 1..6 dims, orders 0..5, 0..50 aux keys (short and HIERARCH, values of every length that fits), "
+    ctx.coverage["rule"] = ("files generated from VERIF_SEED by harness/c19_harness.cpp: 1..6 dims, orders 0..5, 0..50 aux keys written through write_key (short and HIERARCH, values of every length "
+                            "that fits, with and without embedded quotes; all quoted in the file, so the reader re-allocates them) plus 0..4 unquoted cards (integer, float, logical, HISTORY) added with cfitsio, "
                             "each loaded without convolution and with kernels of 2..8 knots in up to three dimensions; a case is non-trivial when a convolution is performed or the file has aux keys; "
-                            "distinct = distinct (file description, configuration) lines; profile I = files whose image axis disagrees with the knot count (known finding)")
+                            "distinct = distinct (file description, configuration) lines; profile I = files the reader must refuse (image axis larger/smaller than nknots-order-1, fewer than 2*order+2 knots): "
+                            "library and generated predicate must both refuse")
+    ctx.coverage["refused_files"] = refused
     ctx.coverage["input_distribution"] = dist
     if worst: ctx.coverage["smallest_slack"] = {"estimate_minus_peak": worst[0], "ndim": worst[1], "naux": worst[2], "kernel_knots": worst[3], "estimate": worst[4], "peak": worst[5]}
     ctx.assumptions += [
         "the property counts bytes REQUESTED from the allocator (n*sizeof(T)); alignment padding and per-block bookkeeping of a concrete arena are not part of it (estimateMemory's final +1..2 KB is the only allowance)",
         "temporaries of convolve (rho, trafo, the new coefficient buffer, saved knots) are new[]/unique_ptr memory, not allocator memory, and are outside the property",
-        "an auxiliary key and its value come from one 80-column card (strlen(key)+strlen(value) <= 80), checked on every generated file; FLEN_KEYWORD/FLEN_VALUE alone would not suffice",
-        "the coefficient image is consistent with the knot count in the declared dimension (true for every file write_fits produces); otherwise: known finding (reader does not validate)",
+        "an auxiliary key and its raw value come from one 80-column card (strlen(key)+strlen(value) <= 80) and the stored string is not longer than the raw value, both checked on every generated file; FLEN_KEYWORD/FLEN_VALUE alone would not suffice",
+        "the coefficient image is consistent with the knot count: no longer an assumption - read_fits_core refuses every other file (Lean: C19_loadable_consistent about the generated predicate; tie: profile I)",
+        "a file the reader refuses is outside the event model: the requests made before the refusal (the coefficient array is requested before the knot counts are compared) can exceed estimateMemory's value for that file; reported in coverage.refused_files, not a violation (the load fails either way and the guard releases everything)",
+        "calls inside `catch` handlers that re-throw (release of the first value block when the second cannot be obtained) and the storage guard's release on a failing path are not modelled: they only lower the level",
         "no wrap-around of size_t / long arithmetic (table sizes far below 2^63)",
         "a FITS header always holds at least one card (the reader allocates aux only under `nkeys > 0`)",
         "convolutions of an order-0 dimension and 1-knot kernels are generated only when photospline::factorial(0) returns promptly (it loops 2^32 times on a tree without the C14 repair)",
